@@ -20,6 +20,12 @@ def gen_options(rng):
             'page_requisites_level': rng.choice([5, 5, 1, 2]), 'no_parent': rng.random() < 0.3,
             'concurrent': rng.choice([1, 1, 2, 3, 4, 8]), 'accept_regex': None, 'reject_regex': None,
             'tries': 20, 'span_hosts_allow': []}
+    if opts['concurrent'] > 1:
+        # --concurrent is parsed but not handed to the pipelines in this tree: half of the concurrent cases set the
+        # concurrency the way a plug-in does, so that several items really are in flight (8 > the 6 connections per host)
+        opts['plugin_concurrency'] = rng.random() < 0.6
+        # a server that closes the connection after every answer: every check-in returns a dead connection
+        opts['server_closes'] = rng.random() < 0.4
     r = rng.random()
     if r < 0.15:
         opts['reject_regex'] = r'/d2/'
@@ -47,12 +53,24 @@ def argv_for(opts, start, db_path, prefix):
 def run_crawl(site, opts, delay_seed, max_delay=0.004):
     from harness import servers, crawl
     addrs, port = servers.allocate_addresses(1)
-    srv = servers.Server(sitegen.make_handler(site), addrs, port, delay_seed=delay_seed,
+    handler = sitegen.make_handler(site)
+    if opts.get('server_closes'):
+        inner = handler
+
+        def handler(req):
+            resp = inner(req)
+            if isinstance(resp, dict) and 'raw' not in resp:
+                resp = dict(resp, close=True, headers=list(resp.get('headers') or []) + [('Connection', 'close')])
+            return resp
+    srv = servers.Server(handler, addrs, port, delay_seed=delay_seed,
                          max_delay=max_delay if opts['concurrent'] > 1 else 0.0).start()
     tmp = tempfile.mkdtemp(prefix='vc01')
     try:
         db = os.path.join(tmp, 'crawl.db')
-        res = crawl.run_app(argv_for(opts, site.start, db, tmp), {site.host: addrs[0]})
+        res = crawl.run_app(argv_for(opts, site.start, db, tmp), {site.host: addrs[0]},
+                            pipeline_concurrency=opts['concurrent'] if opts.get('plugin_concurrency') else None,
+                            # a crawl in which no request arrives for 20 s although rows are still unfinished hangs
+                            stall_watch=(lambda: len(srv.log.snapshot()), 20) if opts.get('plugin_concurrency') else None)
         rows = crawl.read_table(db) if os.path.exists(db) else []
         log = srv.log.snapshot()
     finally:
@@ -79,6 +97,7 @@ def judge(site, opts, res, rows, log, part, replay):
     cls = 'conc{}'.format('1' if opts['concurrent'] == 1 else 'N')
     if res['exit_status'] != 0 or res['crashed']:
         part.violation('crawl-did-not-exit-cleanly/' + cls, {'exit': res['exit_status'], 'exception': res['exception'],
+                                                              'stalled': res.get('stalled'), 'pool_state': res.get('pool_state'),
                                                               'log': res['log'][-800:]}, replay)
         return
     requested = {}
@@ -308,7 +327,7 @@ def worker(job):
     for case in cases:
         site = build_site(case)
         opts = case['opts']
-        res, rows, log = run_crawl(site, opts, case['delay_seed'])
+        res, rows, log = run_crawl(site, opts, case['delay_seed'], max_delay=case.get('max_delay', 0.004))
         part.evaluations += 1
         judge(site, opts, res, rows, log, part, case)
         feats = site.features
@@ -317,6 +336,10 @@ def worker(job):
             part.nontrivial_case(nontrivial_key(site, opts) + str(opts['concurrent']))
         orders.add(common.jhash([canon_request(e) for e in log]))
         part.count('conc_%d' % opts['concurrent'])
+        if opts.get('plugin_concurrency'):
+            part.count('crawls_with_pipeline_concurrency_above_1')
+            if opts.get('server_closes'):
+                part.count('crawls_with_pipeline_concurrency_and_closing_server')
         if case.get('many_redirects'):
             part.count('crawls_with_more_than_20_redirecting_urls')
         if case.get('robots_meta'):
@@ -372,6 +395,13 @@ def main():
             hub_opts = dict(gen_options(rng), level=0, no_parent=False, accept_regex=None, reject_regex=None)
             cases.insert(rng.randrange(len(cases)), {'site_seed': rng.randrange(1 << 30), 'opts': hub_opts,
                                                      'delay_seed': rng.randrange(1 << 30), 'n_pages': 3, 'hub_links': n})
+        # more items in flight than the pool allows connections to one host (6), against a server that closes after every
+        # answer and takes its time: workers queue for a connection slot and every slot comes back as a dead connection
+        for n in range(4 if not check.thorough else 40):
+            busy_opts = dict(gen_options(rng), level=0, no_parent=False, accept_regex=None, reject_regex=None, concurrent=rng.choice([8, 8, 12, 7]),
+                             plugin_concurrency=True, server_closes=n % 4 != 3)
+            cases.insert(rng.randrange(len(cases)), {'site_seed': rng.randrange(1 << 30), 'opts': busy_opts, 'delay_seed': rng.randrange(1 << 30),
+                                                     'n_pages': 40, 'max_delay': 0.03})
         nj = check.jobs * (4 if check.thorough else 1)
         # each job runs under its own hash seed: the scraper hands over the links of a page as a set, so their order (which
         # role of a URL is seen first, which link is stored first) varies with it
